@@ -254,12 +254,32 @@ pub fn string_op<'b>(ctx: &mut Ctx, bump: &'b Bump, s: &mut BString<'b>, t: &mut
             let n = c as i32 - 100;
             let x = text(a, (b % 4) as usize);
             if code == 22 {
-                let ns = {
-                    let _g = enter_arena(1);
-                    bumpalo::format!(in bump, "{}-{:>5}-{:?}", n, x, x)
-                };
-                let nt = format!("{}-{:>5}-{:?}", n, x, x);
-                return SAfter::New(ns, nt);
+                // the same invocation through bumpalo's macro and std's; format strings must be literals, so the
+                // shapes are a fixed family (explicit, positional, named, inline-captured arguments, escaped braces,
+                // no arguments at all) and the values are generated
+                macro_rules! fmt_pair {
+                    ($($t:tt)*) => {{
+                        let ns = {
+                            let _g = enter_arena(1);
+                            bumpalo::format!(in bump, $($t)*)
+                        };
+                        let nt = format!($($t)*);
+                        return SAfter::New(ns, nt);
+                    }};
+                }
+                let width = (b % 7) as usize;
+                match b % 10 {
+                    0 => fmt_pair!("{}-{:>5}-{:?}", n, x, x),
+                    1 => fmt_pair!("{n}-{x}",),
+                    2 => fmt_pair!("set {{a, b}} ∪ {{ç}}",),
+                    3 => fmt_pair!("plain text é, no arguments",),
+                    4 => fmt_pair!("{0}{0}{1:?}", x, n),
+                    5 => fmt_pair!("{n:>width$}|{x:<8}|{:+}", n),
+                    6 => fmt_pair!("{{{}}}", n),
+                    7 => fmt_pair!("",),
+                    8 => fmt_pair!("{x:?}{{{n:>4}}}",),
+                    _ => fmt_pair!("{}", x,),
+                }
             }
             ctx.both("write!(String)", || write!(s, "{}|{}", n, x).is_ok(), || write!(t, "{}|{}", n, x).is_ok());
         }
@@ -339,7 +359,7 @@ pub fn string_consume<'b>(ctx: &mut Ctx, s: BString<'b>, t: String, a: u8) -> Sl
                 let _g = enter_arena(1);
                 s.into_bytes()
             };
-            Slot::B(VSlot { s: v, t: t.into_bytes() })
+            Slot::B(VSlot::new(v, t.into_bytes()))
         }
         _ => {
             ctx.both("drop(String)", move || drop(s), move || drop(t));
@@ -351,7 +371,7 @@ pub fn string_consume<'b>(ctx: &mut Ctx, s: BString<'b>, t: String, a: u8) -> Sl
 /// Vec<u8> -> String::from_utf8, compared with std
 pub fn bytes_to_string<'b>(ctx: &mut Ctx, v: VSlot<'b, u8, u8>) -> Slot<'b> {
     ctx.st(V::Conversions);
-    let VSlot { s, t } = v;
+    let VSlot { s, t, .. } = v;
     let rs = {
         let _g = enter_arena(1);
         BString::from_utf8(s)
@@ -364,15 +384,15 @@ pub fn bytes_to_string<'b>(ctx: &mut Ctx, v: VSlot<'b, u8, u8>) -> Slot<'b> {
             if (a.valid_up_to(), a.error_len()) != (b.valid_up_to(), b.error_len()) {
                 ctx.v("C14", format!("from_utf8 error position ({}, {:?}) differs from std ({}, {:?})", a.valid_up_to(), a.error_len(), b.valid_up_to(), b.error_len()));
             }
-            Slot::B(VSlot { s: es.into_bytes(), t: et.into_bytes() })
+            Slot::B(VSlot::new(es.into_bytes(), et.into_bytes()))
         }
         (Ok(s), Err(et)) => {
             ctx.v("C14", format!("from_utf8 accepted {:02x?} which std rejects", s.as_bytes()));
-            Slot::B(VSlot { s: s.into_bytes(), t: et.into_bytes() })
+            Slot::B(VSlot::new(s.into_bytes(), et.into_bytes()))
         }
         (Err(es), Ok(t)) => {
             ctx.v("C14", format!("from_utf8 rejected {:02x?} which std accepts", t.as_bytes()));
-            Slot::B(VSlot { s: es.into_bytes(), t: t.into_bytes() })
+            Slot::B(VSlot::new(es.into_bytes(), t.into_bytes()))
         }
     }
 }
